@@ -3,7 +3,7 @@
 # confirm the seeded change in its scratch worktree, store it under /verif/seeded/<Cxx>-<name>/, run the checks against it.
 set -u
 ID=$1; NAME=$2; TIER=$3; shift 3
-W=/tmp/seed/$ID
+W=${SEEDROOT:-/tmp/seed}/$ID
 D=/verif/seeded/$ID-$NAME
 bash /verif/tools/confirm_seed.sh "$W" 2>&1 | tee /tmp/confirm.$ID.log | tail -6
 mkdir -p "$D"
